@@ -10,7 +10,11 @@ from common import enc, dec
 LEVEL = "proof"
 THEOREMS = ["Mistune.crNorm_eq_endsTo", "Mistune.norm_crlf", "Mistune.norm_cr", "Mistune.norm_lf",
             "Mistune.norm_of_same_lf_form", "Mistune.norm_append_nl", "Mistune.norm_empty",
-            "Mistune.norm_none_eq_empty", "Mistune.norm_ends_nl"]
+            "Mistune.norm_none_eq_empty", "Mistune.norm_ends_nl",
+            # the same laws for the whole-document function of the concrete model (every configuration, every string)
+            "Mistune.Model.parseDoc_congr_norm", "Mistune.Model.parseDoc_crlf", "Mistune.Model.parseDoc_cr", "Mistune.Model.parseDoc_lf", "Mistune.Model.parseDoc_crlf_cr_lf",
+            "Mistune.Model.parseDoc_of_same_lf_form", "Mistune.Model.parseDoc_append_nl", "Mistune.Model.parseDoc_empty", "Mistune.Model.blockParse_of_same_lf_form",
+            "Mistune.Model.blockParse_append_nl"]
 
 
 def ends_to(s, e):
